@@ -58,8 +58,7 @@ class SecsIRig:
             if self.pipe.inbox_empty() and stuck.wait_idle(self.activity, timeout=0.02, settle=0.002, samples=3):
                 if predicate():
                     return True
-                time.sleep(0.02)
-                if self.pipe.inbox_empty() and stuck.wait_idle(self.activity, timeout=0.05, settle=0.004, samples=3):
+                if self.pipe.inbox_empty() and stuck.wait_idle(self.activity, timeout=0.3, settle=0.012, samples=6):
                     return predicate()
             time.sleep(0.0003)
         return predicate()
